@@ -1,0 +1,17 @@
+//go:build verif
+
+package ecdsa
+
+import (
+	"crypto/elliptic"
+	"math/big"
+)
+
+// Views of unexported helpers for the verification harness (build tag verif only; nothing here is
+// reachable in a normal build).
+
+func VerifHashBlind(c elliptic.Curve, sk *PrivateKey, context []byte) (*big.Int, error) {
+	return hashBlind(c, sk, context)
+}
+
+func VerifHashToInt(hash []byte, c elliptic.Curve) *big.Int { return hashToInt(hash, c) }
